@@ -98,7 +98,7 @@ func genList(r *rng, pool []string, maxN int, neg bool, sep string) string {
 	if r.chance(1, 24) {
 		// a LONG value list (log-scale, up to a few hundred values): generated values around the pool's ones, so
 		// that the value a request hits may be the 9th, the 70th or the 300th of the list
-		items = nSpread(r, items, nWideValues(nLog(r, 7, 300), pool))
+		items = nSpread(r, items, nWideValues(nValueCount(r, 7, 300), pool))
 	}
 	for i := range items {
 		if neg {
@@ -110,7 +110,10 @@ func genList(r *rng, pool []string, maxN int, neg bool, sep string) string {
 }
 
 func genClientValue(r *rng) string {
-	n := nCount(r, 1+r.n(4), 24, 5, 120)
+	n := 1 + r.n(4)
+	if r.chance(1, 24) {
+		n = nValueCount(r, 5, 120)
+	}
 	var items []string
 	for i := 0; i < n; i++ {
 		var c string
@@ -260,9 +263,13 @@ func urlAround(r *rng, pattern string) string {
 	if r.chance(1, 6) {
 		u += pick(r, poolPaths)
 	}
-	if r.chance(1, 20) {
+	switch r.n(20) {
+	case 0:
 		// a LONG URL (log-scale, up to beyond the 4 KiB cap): filler between the host and the part the pattern is about
 		u = nLongURL(r, u, nPadLen(r))
+	case 1, 2, 3:
+		// a URL of ordinary length for a real page (70..300 bytes; the generated ones are 20..60 bytes long)
+		u = nLongURL(r, u, nLog(r, 8, 250))
 	}
 
 	return u
